@@ -221,7 +221,7 @@ def readTextLines (ar : Arith) : RState → List Txt → R RState
     if l.isEmpty then readTextLines ar s ls else
     match csvRecord l with
     | .err => .err
-    | .openQuote => .unmodelled
+    | .openQuote => if ls.isEmpty then .err else .unmodelled    -- at the end of the file: ErrQuote; otherwise the cell runs on
     | .record rec =>
       match recordLine rec with
       | none => readTextLines ar s ls
